@@ -423,11 +423,22 @@ def assemble(group, outs, vac_names=None):
 # ----------------------------------------------------------------------------------------
 # Verus
 # ----------------------------------------------------------------------------------------
-def run_verus(path, rlimit=30, extra=None, timeout=900):
-    cmd = ["verus", path, "--error-format=json", "--output-json", "--time", "--multiple-errors", "20",
+def run_verus(path, rlimit=30, extra=None, timeout=1800, multiple_errors=20):
+    cmd = ["verus", path, "--error-format=json", "--output-json", "--time", "--multiple-errors", str(multiple_errors),
            "--rlimit", str(rlimit), "--triggers-mode", "silent", "--num-threads", "16"]
     if extra:
         cmd += extra
+    # Verifier results are a function of the generated text and the flags: identical text (same /repo
+    # functions, same contracts, same prelude) is not re-verified within one sandbox (cache under .cache/).
+    text = open(path).read()
+    key = hashlib.sha256((text + "\0" + " ".join(cmd[2:]) + "\0verus-0.2026.09.13").encode()).hexdigest()
+    cdir = os.path.join(CACHE, "results")
+    os.makedirs(cdir, exist_ok=True)
+    cpath = os.path.join(cdir, key + ".json")
+    if os.path.exists(cpath) and not os.environ.get("VERIF_NOCACHE"):
+        r = json.load(open(cpath))
+        r["cached"] = True
+        return r
     t0 = time.time()
     try:
         p = subprocess.run(cmd, capture_output=True, text=True, timeout=timeout, cwd=os.path.dirname(path))
@@ -444,13 +455,17 @@ def run_verus(path, rlimit=30, extra=None, timeout=900):
                 pass
     summary = None
     try:
-        # stdout holds one JSON object (pretty printed)
         i = p.stdout.index("{")
         summary = json.loads(p.stdout[i:])
     except Exception:
         summary = None
-    return {"cmd": " ".join(cmd), "rc": p.returncode, "diags": diags, "summary": summary, "wall": wall,
-            "stderr": p.stderr, "stdout": p.stdout}
+    r = {"cmd": " ".join(cmd), "rc": p.returncode, "diags": diags, "summary": summary, "wall": wall,
+         "stderr": p.stderr[-20000:], "stdout": "", "cached": False, "text_sha256": key}
+    try:
+        json.dump(r, open(cpath, "w"))
+    except Exception:
+        pass
+    return r
 
 
 HARD_MARKERS = ("not supported", "unsupported", "The verifier does not yet support", "not yet supported",
@@ -465,7 +480,7 @@ VERIF_FAILURE_PREFIXES = (
     "possible truncation", "Resource limit", "unreachable", "constructed value may fail",
     "cannot show invariant", "failed precondition", "recommendation not met", "possible overflow",
     "call to non-static function fails", "index out of bounds", "possible out of bounds",
-    "unable to prove post-condition of closure", "unable to prove",
+    "unable to prove post-condition of closure", "unable to prove", "function body check",
 )
 
 
